@@ -359,7 +359,7 @@ def setup(repo):
     # warm the native build that concrete playback needs (third-party crates compiled once into the playback target dir), so that
     # confirming a counterexample later is a matter of minutes; failure here is not fatal (playback then just takes longer)
     for p in [x for x in pk if x == 'aquatic_udp']:     # its dependency set covers the other packages'; one warm-up keeps setup short
-        rc, out, wall = sh(['cargo', 'kani', 'playback', '-Z', 'concrete-playback', '-p', p, '--', 'kani_concrete_playback_no_such_test'], cwd=scratch, timeout=2400,
+        rc, out, wall = sh(['cargo', 'kani', 'playback', '-Z', 'concrete-playback', '-p', p, '--', 'kani_concrete_playback_no_such_test'], cwd=scratch, timeout=1200,
                            env=dict(ENV, CARGO_PROFILE_TEST_LTO='off', CARGO_PROFILE_DEV_LTO='off', CARGO_TARGET_DIR=TARGET + '-playback'))
         print(f'setup: playback warm-up {p}: rc={rc} {wall:.0f}s')
     shutil.rmtree(os.path.dirname(scratch), ignore_errors=True)
